@@ -2,7 +2,7 @@ import sys, time, subprocess
 sys.path.insert(0,'/verif/lib')
 import mirsmt, miragg, mirflow, mirblocks
 mir=open('/tmp/mir.txt').read()
-src='/verif/.cache/work/slot0/src'
+src='/repo'
 ob=mirsmt.Obligations(); a=miragg.Agg(mir,src,ob)
 def dbg(name, ex, bad_terms, describe, witness=True):
     print(name, len(bad_terms), 'terms; paths', len(ex.paths))
